@@ -74,12 +74,12 @@ theorem run_spec_ip (nest0 : Nat) (roots : List Node) :
 theorem cliMain_eq (roots : List Node) :
     cliMain roots =
       match firstEscape roots with
-      | none => ⟨(cliLoop 0 roots).items ++ [.tbotEnd true], .exit 0, 0⟩
-      | some .kbd => ⟨(cliLoop 0 roots).items ++ [.excev .kbd, .tbotEnd false], .exit 130, 0⟩
-      | some e => ⟨(cliLoop 0 roots).items ++ [.excev e, .tbotEnd false], .exit 1, 0⟩ := by
-  have h0 : tbotStart initialNesting = 0 := by decide
+      | none => ⟨(cliLoop topNesting roots).items ++ [.tbotEnd true], .exit 0, topNesting⟩
+      | some .kbd =>
+        ⟨(cliLoop topNesting roots).items ++ [.excev .kbd, .tbotEnd false], .exit 130, topNesting⟩
+      | some e => ⟨(cliLoop topNesting roots).items ++ [.excev e, .tbotEnd false], .exit 1, topNesting⟩ := by
   unfold cliMain
-  simp only [h0, (cliLoop_sem roots 0).1, (cliLoop_sem roots 0).2]
+  simp only [(cliLoop_sem roots topNesting).1, (cliLoop_sem roots topNesting).2]
   cases firstEscape roots with
   | none => rfl
   | some e => cases e <;> rfl
@@ -87,13 +87,12 @@ theorem cliMain_eq (roots : List Node) :
 /-- CLI level (both tools). -/
 theorem run_spec_cli (m : Mode) (hm : m ≠ .ip) (nest0 : Nat) (roots : List Node) :
     Spec.C16 ⟨m, nest0, roots⟩ (run ⟨m, nest0, roots⟩) = true := by
-  have htc := cliLoop_isTc roots 0
-  have hfeed := feed_top_cli 0 roots Ck.init ⟨rfl, rfl, rfl⟩
+  have htc := cliLoop_isTc roots topNesting
+  have hfeed := feed_top_cli topNesting roots Ck.init ⟨rfl, rfl, rfl⟩
   have hpre := cliRan_prefix roots
   have hall := cliRan_all roots
-  have h0 : tbotStart initialNesting = 0 := by decide
   have hrun : run ⟨m, nest0, roots⟩ = cliMain roots := by cases m <;> first | exact absurd rfl hm | rfl
-  have hbase : Case.base ⟨m, nest0, roots⟩ = 0 := by cases m <;> first | exact absurd rfl hm | exact h0
+  have hbase : Case.base ⟨m, nest0, roots⟩ = topNesting := by cases m <;> first | exact absurd rfl hm | rfl
   have hcli : (m != Mode.ip) = true := by cases m <;> first | exact absurd rfl hm | rfl
   simp only [Ck.init, List.nil_append] at hfeed
   rw [hrun, cliMain_eq]
@@ -137,11 +136,11 @@ theorem run_nest_restored (c : Case) : (run c).nest = c.base := by
   obtain ⟨m, nest0, roots⟩ := c
   cases m
   · exact runKids_nest roots _
-  · show (cliMain roots).nest = tbotStart initialNesting
+  · show (cliMain roots).nest = topNesting
     rw [cliMain_eq]; cases firstEscape roots with
     | none => rfl
     | some e => cases e <;> rfl
-  · show (cliMain roots).nest = tbotStart initialNesting
+  · show (cliMain roots).nest = topNesting
     rw [cliMain_eq]; cases firstEscape roots with
     | none => rfl
     | some e => cases e <;> rfl
@@ -211,7 +210,7 @@ theorem run_events_balanced (c : Case) : Balanced (evs (run c).items) := by
   obtain ⟨m, nest0, roots⟩ := c
   have hcli : Balanced (evs (cliMain roots).items) := by
     rw [cliMain_eq]
-    have := cliLoop_events_balanced roots 0
+    have := cliLoop_events_balanced roots topNesting
     cases firstEscape roots with
     | none => simpa [evs_append, evs] using this
     | some e => cases e <;> simpa [evs_append, evs] using this
@@ -325,8 +324,8 @@ theorem cli_final_event (roots : List Node) :
     ∃ pre, (cliMain roots).items = pre ++ [.tbotEnd (decide ((cliMain roots).fin = .exit 0))] ∧
       (∀ i ∈ pre, ∀ b, i ≠ .tbotEnd b) ∧
       (∀ e, firstEscape roots = some e → ∃ pre', pre = pre' ++ [.excev e]) := by
-  have htc := cliLoop_isTc roots 0
-  have hno : ∀ i ∈ (cliLoop 0 roots).items, ∀ b, i ≠ .tbotEnd b := by
+  have htc := cliLoop_isTc roots topNesting
+  have hno : ∀ i ∈ (cliLoop topNesting roots).items, ∀ b, i ≠ .tbotEnd b := by
     intro i hi b hb
     have := htc i hi
     rw [hb] at this
@@ -337,21 +336,21 @@ theorem cli_final_event (roots : List Node) :
   | some e =>
     cases e with
     | err =>
-      refine ⟨(cliLoop 0 roots).items ++ [.excev .err], by simp, ?_, ?_⟩
+      refine ⟨(cliLoop topNesting roots).items ++ [.excev .err], by simp, ?_, ?_⟩
       · intro i hi b
         rcases List.mem_append.1 hi with h | h
         · exact hno i h b
         · simp at h; subst h; simp
       · intro e he; cases he; exact ⟨_, rfl⟩
     | skip =>
-      refine ⟨(cliLoop 0 roots).items ++ [.excev .skip], by simp, ?_, ?_⟩
+      refine ⟨(cliLoop topNesting roots).items ++ [.excev .skip], by simp, ?_, ?_⟩
       · intro i hi b
         rcases List.mem_append.1 hi with h | h
         · exact hno i h b
         · simp at h; subst h; simp
       · intro e he; cases he; exact ⟨_, rfl⟩
     | kbd =>
-      refine ⟨(cliLoop 0 roots).items ++ [.excev .kbd], by simp, ?_, ?_⟩
+      refine ⟨(cliLoop topNesting roots).items ++ [.excev .kbd], by simp, ?_, ?_⟩
       · intro i hi b
         rcases List.mem_append.1 hi with h | h
         · exact hno i h b
